@@ -292,6 +292,6 @@ def run(ctx):
     ctx.rule = RULE
     ctx.assumptions = ["bodies restricted to +,-,single products and integer comparisons so that plain Python floats and "
                        "fixed point agree exactly (dyadic operands); recorder, evaluator, search"]
-    n = 60 if ctx.tier == "quick" else 3000
+    n = 200 if ctx.tier == "quick" else 4000
     ctx.stats = core.run_shards("harness.checks.c17", "shard",
                                 [dict(seed=ctx.seed * 1000 + i, n_examples=n) for i in range(16)])
